@@ -49,7 +49,8 @@ ASSUMPTIONS = [
     "'loaded on the source' is read from the source instance's __dict__ before the merge (input data, produced by ordinary loading / attribute assignment)",
     "attributes absent from the source leave the target's value untouched (Session.merge docstring / test suite); the prose in session_state_management.rst says such attributes are "
     "'expired ... which discards any locally present value' - the two only differ when the target has a pending or stale value; the docstring reading is used",
-    "load=False is exercised on clean detached sources with clean targets, plus the documented error cases (transient source; dirty source whose identity is absent from the target session)",
+    "load=False is exercised on clean detached sources (targets absent, clean, stale, or holding un-flushed pending changes - the result must be clean and nothing is written), plus the "
+    "documented error cases (transient source; dirty source whose identity is absent from the target session)",
     "foreign-key columns are never assigned directly on transient sources; detached sources carry the values they were loaded with",
     "idempotence is checked for graphs in which every object has a primary key (a PK-less source legitimately creates a new pending object per merge)",
     "the target session uses autoflush (merge(load=True) flushes the target's own pending changes first, as documented)",
@@ -274,7 +275,7 @@ class _Case:
                     if v is not None:
                         self.t_keep.append(v)
                         self.classes.add("target-scalar-loaded-non-none")
-                if k == "rootset" and self.case["load"]:
+                if k == "rootset":
                     cols = PCOLS if root[0] == "parent" else CCOLS
                     if spec["kind"] == "tp":
                         carried = [PCOLS[ai % 3] for ai, _v in spec["attrs"]]
@@ -289,7 +290,7 @@ class _Case:
                     kids = list(o.children)
                     self.t_keep.extend(kids)
                     self.classes.add("target-collection-loaded")
-                    if kids and self.case["load"]:
+                    if kids:
                         c = kids[op[1] % len(kids)]
                         a = CCOLS[op[2] % 2]
                         v = op[2] + 4 if a != "name" else NAMES[(NAMES.index(self.db["child"][c.id]["name"]) + 1) % 4]
@@ -306,7 +307,7 @@ class _Case:
                 p = s1.get(fam.Parent, op[1] % self.n_p + 1)
                 p.children if op[2] % 2 == 0 else p.tags
                 self.classes.add("target-collection-loaded")
-            elif k == "set" and self.case["load"]:
+            elif k == "set":
                 kind = ["parent", "child"][op[1] % 2]
                 n = self.n_p if kind == "parent" else self.n_c
                 if n:
@@ -397,7 +398,9 @@ def check(case, ctx):
             src_graph = _walk_source(src)
             src_before = [(o, dict(cols), {r: (list(v) if isinstance(v, list) else v) for r, v in rels.items()}) for o, cols, rels in src_graph]
             graph_dirty = k.src_dirty or (k.child_dirty and case["cfg"]["cc"])
-            s1 = Session(k.eng, autoflush=True, expire_on_commit=False)
+            # load=True: autoflush on (merge flushes the target's pending changes first); load=False: autoflush off, so that pending
+            # changes of the target are still pending when the clean copy is stamped over them
+            s1 = Session(k.eng, autoflush=load, expire_on_commit=False)
             k.sessions.append(s1)
             # load=False with a dirty graph: only the documented error case (identities absent from the target session) is generated
             k.prepare_target(s1, skip=(not load and graph_dirty))
@@ -406,8 +409,9 @@ def check(case, ctx):
             # ---- what was there before
             k.prior_loaded = k.snapshot_session(s1)
             k.prior_db = {t: {i: dict(r) for i, r in rows.items()} for t, rows in k.db.items()}
-            for (kind, ident, a), v in k.t_set.items():
-                k.prior_db[kind][ident][a] = v  # merge(load=True) autoflushes the target's own pending changes first
+            if load:
+                for (kind, ident, a), v in k.t_set.items():
+                    k.prior_db[kind][ident][a] = v  # merge(load=True) autoflushes the target's own pending changes first
             k.prior_links = set(k.links)
             prior_instances = {(_kind(o), o.__dict__["id"]): o for o in k._keepalive}
 
@@ -485,6 +489,8 @@ def check(case, ctx):
                     fail("C45/load=False/attribute-events-emitted", f"merge(load=False) fired {n_events[0]} attribute set event(s)", observed=n_events[0], expected=0)
                 if merged in s1.dirty or s1.is_modified(merged):
                     fail("C45/load=False/result-flagged-modified", "merge(load=False) result is in session.dirty / is_modified")
+                if k.t_set:
+                    k.classes.add("noload-over-pending-target")
 
             # ---- source untouched and outside the session
             for (o, cols0, rels0), (o2, cols1, rels1) in zip(src_before, _walk_source(src)):
@@ -576,6 +582,25 @@ def check(case, ctx):
             pair(src, merged, "root")
             note(nontrivial)
 
+            if not load:
+                # "The resulting objects from load=False are always produced as clean": also when the target (or a cascaded element)
+                # had an un-flushed change before; nothing of it may be left in session.dirty, and a flush writes nothing
+                merged_ids = {(_kind(t), t.__dict__.get("id")) for _s, t, _p in pairs}
+                for _s, t_obj, path in pairs:
+                    if t_obj in s1.dirty or s1.is_modified(t_obj):
+                        fail("C45/load=False/merged-instance-left-dirty", f"{path}: after merge(load=False) {t_obj!r} is in session.dirty={t_obj in s1.dirty} / is_modified={s1.is_modified(t_obj)} "
+                             f"(it had pending changes before: {any((kk, ii) == (_kind(t_obj), t_obj.__dict__.get('id')) for kk, ii, _a in k.t_set)})")
+                other_pending = any((kk, ii) not in merged_ids for kk, ii, _a in k.t_set) or bool(s1.new) or bool(s1.deleted)
+                if not other_pending:
+                    if len(s1.dirty) or not s1._is_clean():
+                        fail("C45/load=False/session-not-clean", f"after merge(load=False) with nothing else pending: session.dirty={list(s1.dirty)}, _is_clean()={s1._is_clean()}")
+                    cap2 = Capture(k.eng)
+                    s1.flush()
+                    n2 = len(cap2.rows)
+                    cap2.close()
+                    if n2 or len(s1.dirty) or not s1._is_clean():
+                        fail("C45/load=False/flush-after-merge-not-a-noop", f"flush after merge(load=False) emitted {n2} statement(s); session.dirty={list(s1.dirty)}, _is_clean()={s1._is_clean()}")
+
             # ---- column attributes: per target, the last source object (in merge order) that carries the attribute wins;
             # attributes no source carries keep what the target had
             for s_obj, t_obj, path in pairs:
@@ -634,6 +659,12 @@ def check(case, ctx):
             # ---- commit and compare rows
             s1.commit()
             exp_db = {t: {i: dict(r) for i, r in rows.items()} for t, rows in k.prior_db.items()}
+            if not load:
+                # pending changes of instances that were merged over are discarded; those of other instances are flushed by the commit
+                merged_ids = {(_kind(t), t.__dict__.get("id")) for _s, t, _p in pairs}
+                for (kind, ident, a), v in k.t_set.items():
+                    if (kind, ident) not in merged_ids:
+                        exp_db[kind][ident][a] = v
             exp_links = set(k.prior_links)
             for kind in ("parent", "child", "tag", "profile") if load else ():
                 for s_obj, t_obj, path in pairs:
@@ -757,7 +788,7 @@ def _cases(draw):
     if fmode == "absent":
         case["target"] = tops
         return case
-    if case["load"] and draw(st.integers(0, 7)):
+    if draw(st.integers(0, 7)):
         # most cases: the target session already holds the root identity with a pending change (and often its children)
         tops.append(["rootset", draw(st.integers(0, 2)), draw(_v)])
         if draw(st.booleans()):
